@@ -15,6 +15,7 @@ enclosures (one relative rounding eps per operation).  Coefficient arrays produc
 compared with 16 eps * (#terms+3) * magnitude.  Bounds are rounded up to a power of two and doubled.
 """
 import math
+import time
 from fractions import Fraction
 
 from harness.core import clist, log, parse_coq_list_of_nat
@@ -159,8 +160,21 @@ def gen_ops(rng, case, thorough):
             self_is = rng.choice([1, 2])
             grid = case['grid'] + og if self_is == 1 else og + case['grid']
             ops.append({'op': name, 'other': other, 'self_is': self_is, 'grid': grid, 'ogrid': og})
-    if vec and kind == 'bsp' and sdim == m and sdim <= 2 and False:
-        pass
+    if vec and m == 2 and sdim <= 2:
+        # geo2 o f: geo2 a single-span B-spline surface on [-4,4]^2 (contains the convex hull of f's coefficients)
+        p2 = [rng.randint(1, 3), rng.randint(1, 3)]
+        k2 = [{'p': p, 'kv': [hx(-4)] * (p + 1) + [hx(4)] * (p + 1)} for p in p2]
+        t2 = rng.choice([[], [2], [3]])
+        mm = 1
+        for t in t2:
+            mm *= t
+        C2 = [hx(Fraction(rng.randint(-16, 16), 8)) for _ in range((p2[0] + 1) * (p2[1] + 1) * mm)]
+        op = {'op': 'composed', 'other': {'kind': 'bsp', 'kvs': k2, 'tail': t2, 'C': C2}, 'grid': case['grid'], 'pts': case['pts'][:2]}
+        if sdim == 2:
+            op['bd'] = rng.choice(BDNAMES[:4])
+            ax = 1 - BDNAMES.index(op['bd']) // 2
+            op['bdgrid'] = [a for k, a in enumerate(case['grid']) if k != ax]
+        ops.append(op)
     return ops
 
 
@@ -384,3 +398,815 @@ def coq_pt(P):
     b0, b1, b2 = P['bounds']
     return '(%s, (%s, %s, %s), (%s, %s, %s), (%s, %s), %s)' % (
         cql(P['xs']), cqc(b0), cqc(b1), cqc(b2), L(P['vcall']), L(P['vgrid']), L(P['vpw']), L(P['jgrid']), L(P['jpw']), L(P['hgrid']))
+
+
+# ---------------------------------------------------------------------------
+# operations: the returned object (class, knot vectors, coefficients) must define the documented map
+
+def res_func(r):
+    """oracle Func of a described result object (exact rationals of its float coefficients)"""
+    kvs = [([fr(h) for h in k['kv']], k['p']) for k in r['kvs']]
+    N = [len(kv) - p - 1 for kv, p in kvs]
+    shp = r['coeffs']['shape']
+    if shp[:len(N)] != N:
+        return None
+    m = 1
+    for t in shp[len(N):]:
+        m *= t
+    return O.Func(kvs, N, m, [fr(h) for h in r['coeffs']['v']])
+
+
+def res_value(rf, cls, xs):
+    v = rf.deriv(xs, O.unit(rf.sdim))
+    if cls == 'NurbsFunc':
+        return [x / v[-1] for x in v[:-1]]
+    return v
+
+
+def value_of(of, kind, xs):
+    v = of.deriv(xs, O.unit(of.sdim))
+    if kind == 'nurbs':
+        return [x / v[-1] for x in v[:-1]]
+    return v
+
+
+def fmax(hs):
+    return max([abs(fr(h)) for h in hs] + [Fraction(1)])
+
+
+def parse_expected(spec, dim):
+    """documented meaning of a bdspec: (axis, side) or 'ValueError'"""
+    if isinstance(spec, str):
+        k = BDNAMES.index(spec)
+        ax, side = dim - 1 - k // 2, k % 2      # left/right: x (last axis); bottom/top: y; front/back: z
+    else:
+        ax, side = spec
+        if side not in (0, 1):
+            return 'ValueError'
+    if ax < 0 or ax >= dim:
+        return 'ValueError'
+    return [ax, side]
+
+
+def kvs_equal(a, b):
+    return len(a) == len(b) and all(x['p'] == y['p'] and x['kv'] == y['kv'] for x, y in zip(a, b))
+
+
+def run_ops(ck):
+    case, res = ck.case, ck.res
+    f = case['f']
+    sdim, kind, tail, m = ck.sdim, ck.kind, ck.tail, ck.m
+    cls = 'BSplineFunc' if kind == 'bsp' else 'NurbsFunc'
+    cmax = fmax(f['C'])
+    wr = Fraction(1)
+    if kind == 'nurbs':
+        ws = [fr(h) for h in f['W']]
+        wr = max(ws) / min(ws)
+        cmax = cmax * max(ws)
+    ck.coq_ops = []      # Coq boolean terms (strings using F for the model function)
+
+    def barr(nterms, argmax, extra=Fraction(1)):
+        return 2 * O.pow2_ceil(16 * EPS * (nterms + 3) * (1 + cmax) * (1 + argmax) * wr * wr * extra)
+
+    for op, r in zip(case.get('ops', []), res['ops']):
+        name = op['op']
+        if name == 'parse_bdspec':
+            exp = parse_expected(op['arg'], op['dim'])
+            got = r.get('parsed') if r['status'] == 'Ok' else r['status']
+            if got != exp:
+                ck.fail('parse_bdspec', '_parse_bdspec(%r, %d) gives %r, documented %r' % (op['arg'], op['dim'], got, exp))
+            if isinstance(op['arg'], str):
+                term = 'parse_bdname %s %d%%nat' % (op['arg'].capitalize(), op['dim'])
+            else:
+                term = 'parse_bdpair (%d)%%Z (%d)%%Z %d%%nat' % (op['arg'][0], op['arg'][1], op['dim'])
+            gt = 'Some (%d%%nat, %d%%nat)' % tuple(got) if isinstance(got, list) else 'None'
+            if isinstance(got, list) or got == 'ValueError':
+                ck.coq_ops.append('opair_eqb (%s) (%s)' % (term, gt))
+            continue
+        if r['status'] != 'Ok':
+            ck.fail('op-%s-raises-%s' % (name, r['status']), '%s raised %s: %s' % (name, r['status'], r.get('msg')), op=op.get('arg'))
+            continue
+        if not r.get('self_unchanged', True):
+            ck.fail('op-%s-mutates' % name, '%s altered the object it was applied to' % name)
+        if r.get('other_unchanged') is False:
+            ck.fail('op-%s-mutates-other' % name, '%s altered its second operand' % name)
+        pts_res = grid_points(op['grid']) if op.get('grid') else []
+        expected = None           # function xs -> list of values of the documented map
+        exp_cls = cls
+        argmax = Fraction(1)
+        nterms = 1
+        coq = None
+        if name in ('boundary', 'boundary_function'):
+            ax, side = parse_expected(op['arg'], sdim)
+            b = [fr(h) for h in case['brk'][ax]]
+            fixed = b[0] if side == 0 else b[-1]
+
+            def expected(xs, ax=ax, fixed=fixed):
+                us = list(reversed(xs))
+                us.insert(ax, fixed)
+                return value_of(ck.of, kind, list(reversed(us)))
+            if name == 'boundary':
+                if not kvs_equal(r['kvs'], [k for i, k in enumerate(f['kvs']) if i != ax]):
+                    ck.fail('boundary-kvs', 'boundary(%r) does not keep the knot vectors of the other axes in order' % (op['arg'],))
+                coq = 'check_arr %s (boundary F %d%%nat %d%%nat) %s' % (cqc(barr(1, 1)), ax, side, cql([fr(h) for h in r['coeffs']['v']]))
+                # tangential Jacobian of the extracted boundary
+            else:
+                exp_cls = '_BoundaryFunction'
+                if r['axis'] != ax or fr(r['fixed']) != fixed:
+                    ck.fail('boundary_function-axis', '_BoundaryFunction(%r): axis %r fixed %r, expected %r %r' % (op['arg'], r['axis'], float(fr(r['fixed'])), ax, float(fixed)))
+                check_boundary_function(ck, op, r, ax, fixed)
+        elif name == 'translate' or name == 'scale':
+            a = op['arg']
+            av = [fr(h) for h in a] if isinstance(a, list) else [fr(a)] * m
+            argmax = max(abs(x) for x in av) + 1
+            if name == 'translate':
+                expected = lambda xs, av=av: [v + o for v, o in zip(value_of(ck.of, kind, xs), av)]
+            else:
+                expected = lambda xs, av=av: [v * o for v, o in zip(value_of(ck.of, kind, xs), av)]
+            coq = 'check_arr %s (%s_%s F (lst %s)) %s' % (cqc(barr(2, argmax)), 'b' if kind == 'bsp' else 'n', name, cql(av),
+                                                        cql([fr(h) for h in r['coeffs']['v']]))
+        elif name in ('apply_matrix', 'rotate_2d'):
+            if name == 'rotate_2d':
+                ang = float.fromhex(op['arg'])
+                A = [[Fraction(math.cos(ang)), -Fraction(math.sin(ang))], [Fraction(math.sin(ang)), Fraction(math.cos(ang))]]
+            else:
+                A = [[fr(h) for h in row] for row in op['arg']]
+            argmax = max(abs(x) for row in A for x in row) + 1
+            nterms = m
+            expected = lambda xs, A=A: [sum(a * v for a, v in zip(row, value_of(ck.of, kind, xs))) for row in A]
+            if name == 'apply_matrix':
+                coq = 'check_arr %s (%s_matrix F (mat %s) %d%%nat) %s' % (
+                    cqc(barr(m, argmax)), 'b' if kind == 'bsp' else 'n', clist([cql(row) for row in A]), len(A), cql([fr(h) for h in r['coeffs']['v']]))
+        elif name == 'getitem':
+            I = int(op['arg'])
+            expected = lambda xs, I=I: [value_of(ck.of, kind, xs)[I]]
+            coq = 'check_arr %s (%s_getitem F %d%%nat) %s' % (cqc(barr(1, 1)), 'b' if kind == 'bsp' else 'n', I, cql([fr(h) for h in r['coeffs']['v']]))
+        elif name in ('copy', 'as_vector'):
+            expected = lambda xs: value_of(ck.of, kind, xs)
+            if kvs_equal(r['kvs'], f['kvs']) is False:
+                ck.fail('op-%s-kvs' % name, '%s changed the knot vectors' % name)
+        elif name == 'as_nurbs':
+            exp_cls = 'NurbsFunc'
+            expected = lambda xs: value_of(ck.of, kind, xs)
+            if kind == 'bsp':
+                coq = 'check_arr %s (b_as_nurbs F) %s' % (cqc(barr(1, 1)), cql([fr(h) for h in r['coeffs']['v']]))
+        elif name == 'restrict_support':
+            supp = [[fr(h) for h in s] for s in op['arg']]
+            got = [[fr(h) for h in s] for s in r['support']] if isinstance(r['support'], list) else r['support']
+            if got != supp:
+                ck.fail('support-setter', 'support after restriction is %r' % (r['support'],))
+            if r['boundary_cls'] != '_BoundaryFunction':
+                ck.fail('support-boundary-class', 'boundary() of a function with restricted support is a %s (coefficient slicing is not interpolatory there)' % r['boundary_cls'])
+            else:
+                ax, side = parse_expected(op['bd'], sdim)
+                if fr(r['boundary_fixed']) != supp[ax][side]:
+                    ck.fail('support-boundary-coordinate', 'boundary(%r) of the restricted function fixes %r, expected the end %r of the restricted support' % (
+                        op['bd'], float(fr(r['boundary_fixed'])), float(supp[ax][side])))
+            expected = lambda xs: value_of(ck.of, kind, xs)
+        elif name == 'cylinderize':
+            z0, z1 = fr(op['z0']), fr(op['z1'])
+            s0, s1 = [fr(h) for h in op['support']]
+            argmax = max(abs(z0), abs(z1)) + 1
+
+            def expected(xs, z0=z0, z1=z1, s0=s0, s1=s1):
+                return value_of(ck.of, kind, xs[:-1]) + [z0 + (z1 - z0) * (xs[-1] - s0) / (s1 - s0)]
+        elif name in ('outer_sum', 'outer_product', 'tensor_product'):
+            oo = oracle_func(op['other'])
+            okind = op['other']['kind']
+            exp_cls = 'NurbsFunc' if 'nurbs' in (kind, okind) else 'BSplineFunc'
+            osd = len(op['other']['kvs'])
+            argmax = fmax(op['other']['C']) + 1
+            if okind == 'nurbs':
+                ows = [fr(h) for h in op['other']['W']]
+                argmax = argmax * max(ows) * (max(ows) / min(ows)) ** 2
+            s1 = sdim if op['self_is'] == 1 else osd       # G1 = first argument owns the first kvs = the LAST xyz coordinates
+
+            def expected(xs, name=name, op=op, oo=oo, okind=okind, s1=s1):
+                us = list(reversed(xs))
+                us1, us2 = us[:s1], us[s1:]
+                a1 = (ck.of, kind) if op['self_is'] == 1 else (oo, okind)
+                a2 = (oo, okind) if op['self_is'] == 1 else (ck.of, kind)
+                v1 = value_of(a1[0], a1[1], list(reversed(us1)))
+                v2 = value_of(a2[0], a2[1], list(reversed(us2)))
+                if name == 'outer_sum':
+                    return [a + b for a, b in zip(v1, v2)]
+                if name == 'outer_product':
+                    return [a * b for a, b in zip(v1, v2)]
+                return v2 + v1
+            T, _ = coq_func(op['other'])
+            A1, A2 = ('F', T) if op['self_is'] == 1 else (T, 'F')
+            k1, k2 = (kind, okind) if op['self_is'] == 1 else (okind, kind)
+            if exp_cls == 'NurbsFunc':
+                if k1 == 'bsp':
+                    A1 = '(b_as_nurbs %s)' % A1
+                if k2 == 'bsp':
+                    A2 = '(b_as_nurbs %s)' % A2
+                fn = 'n_' + name
+            else:
+                fn = 'b_' + name
+            coq = 'check_arr %s (%s %s %s) %s' % (cqc(barr(2, argmax)), fn, A1, A2, cql([fr(h) for h in r['coeffs']['v']]))
+        if name == 'composed':
+            check_composed(ck, op, r)
+            continue
+        if r.get('cls') != exp_cls:
+            ck.fail('op-%s-class' % name, '%s returns a %s, documented %s' % (name, r.get('cls'), exp_cls))
+            continue
+        if coq:
+            ck.coq_ops.append(coq)
+        if expected is not None and 'coeffs' in r:
+            rf = res_func(r)
+            if rf is None:
+                ck.fail('op-%s-shape' % name, '%s: coefficient array shape %s does not match the knot vectors' % (name, r['coeffs']['shape']))
+                continue
+            extra = Fraction(1)
+            if r['cls'] == 'NurbsFunc':
+                extra = 4 * (1 + cmax) * wr
+            bnd = barr(nterms, argmax, extra)
+            for xs in pts_res[:6]:
+                got = res_value(rf, r['cls'], xs)
+                exp = expected(xs)
+                if len(got) != len(exp) or any(abs(a - b) > bnd * (1 + abs(b)) for a, b in zip(got, exp)):
+                    ck.fail('op-%s-map' % name, '%s: the returned function takes %r at %r, the documented map %r' % (
+                        name, [float(x) for x in got], [float(x) for x in xs], [float(x) for x in exp]), op={k: v for k, v in op.items() if k != 'other'})
+                    break
+
+
+def check_boundary_function(ck, op, r, ax, fixed):
+    """_BoundaryFunction: grid_eval, __call__, grid_jacobian (tangential / with normal) against the exact trace"""
+    sdim, m, kind = ck.sdim, ck.m, ck.kind
+    G = [len(a) for a in op['grid']]
+    pts = grid_points(op['grid'])
+
+    def full(xs):
+        us = list(reversed(xs))
+        us.insert(ax, fixed)
+        return list(reversed(us))
+    ge = ck.route(r['grid_eval'], '_BoundaryFunction.grid_eval', G + ck.tail)
+    gj = ck.route(r['grid_jac'], '_BoundaryFunction.grid_jacobian', G + ck.tail + [sdim - 1])
+    gk = ck.route(r['grid_jac_keep'], '_BoundaryFunction.grid_jacobian(keep_normal)', G + ck.tail + [sdim])
+    col = sdim - 1 - ax          # xyz direction of the fixed coordinate
+    for k, xs in enumerate(pts):
+        (v, J, _), (b0, b1, _) = exact_at(ck.of, kind, full(xs))
+        b0, b1 = 2 * O.pow2_ceil(b0), 2 * O.pow2_ceil(b1)
+        if ge is not None:
+            ck.cmp('boundary_function-grid_eval', ge[k * m:(k + 1) * m], v, b0, '_BoundaryFunction.grid_eval differs from the trace', xs)
+        if gk is not None:
+            ck.cmp('boundary_function-jac-keep', gk[k * m * sdim:(k + 1) * m * sdim], [x for row in J for x in row], b1,
+                   '_BoundaryFunction.grid_jacobian(keep_normal=True) differs from the Jacobian at the boundary', xs)
+        if gj is not None:
+            Jt = [x for row in J for a, x in enumerate(row) if a != col]
+            ck.cmp('boundary_function-jac', gj[k * m * (sdim - 1):(k + 1) * m * (sdim - 1)], Jt, b1,
+                   '_BoundaryFunction.grid_jacobian does not drop the derivative in the normal direction', xs)
+    for x, c in zip(op.get('pts', []), r.get('call', [])):
+        xs = [fr(h) for h in x]
+        (v, _, _), (b0, _, _) = exact_at(ck.of, kind, full(xs))
+        if 'err' in c:
+            ck.fail('boundary_function-call-raises-' + c['err'], '_BoundaryFunction.__call__ raised %s' % c.get('msg'))
+        else:
+            ck.cmp('boundary_function-call', [fr(h) for h in c['ok']['v']], v, 2 * O.pow2_ceil(b0),
+                   '_BoundaryFunction.__call__ differs from the trace (coordinate inserted at the wrong position)', xs)
+
+
+def check_composed(ck, op, r):
+    """ComposedFunction(geo2, f): value geo2(f(x)), Jacobian J2(f(x)) J1(x) (chain rule), boundary.
+    Bound: geo2 is a single-span polynomial patch; |geo2(g~) - geo2(g)| <= L |g~ - g| with the Lipschitz
+    bound L = 2 p Cmax / h per direction, second derivatives bounded by 4 p (p-1) Cmax / h^2."""
+    f = ck.case['f']
+    o2 = oracle_func(op['other'])
+    m2 = o2.m
+    pmax = max(k['p'] for k in op['other']['kvs'])
+    c2 = fmax(op['other']['C'])
+    L = 2 * pmax * c2 / 8 * 2
+    H2 = 4 * pmax * max(pmax - 1, 1) * c2 / 64 * 4
+    sdim = ck.sdim
+
+    def exact(xs):
+        (g, J1, _), (b0, b1, _) = exact_at(ck.of, ck.kind, xs)
+        (v, ve), (J2, J2e), _ = O.bsp_jets(o2, g, order=1)
+        J = [[sum(J2[c][a] * J1[a][j] for a in range(2)) for j in range(sdim)] for c in range(m2)]
+        j1max = max([abs(x) for row in J1 for x in row] + [Fraction(1)])
+        j2max = max([abs(x) for row in J2 for x in row] + [Fraction(1)])
+        bv = 4 * (max(ve) + 2 * L * b0)
+        bj = 4 * (2 * max(max(r_) for r_ in J2e) * j1max + 2 * j2max * b1 + 4 * H2 * b0 * j1max)
+        return v, [x for row in J for x in row], O.pow2_ceil(bv) * 2, O.pow2_ceil(bj) * 2
+    if r.get('cls') != 'ComposedFunction' or r.get('sdim') != sdim:
+        ck.fail('composed-type', 'ComposedFunction has class %r sdim %r' % (r.get('cls'), r.get('sdim')))
+    if r.get('other_unchanged') is False:
+        ck.fail('composed-mutates', 'ComposedFunction evaluation altered geo2')
+    G = [len(a) for a in op['grid']]
+    t2 = op['other']['tail']
+    ge = ck.route(r['grid_eval'], 'ComposedFunction.grid_eval', G + t2)
+    gj = ck.route(r['grid_jac'], 'ComposedFunction(scalar geo2).grid_jacobian' if not t2 else 'ComposedFunction.grid_jacobian',
+                  G + t2 + [sdim]) if len(t2) <= 1 else None
+    for k, xs in enumerate(grid_points(op['grid'])):
+        v, J, bv, bj = exact(xs)
+        if ge is not None:
+            ck.cmp('composed-grid_eval', ge[k * m2:(k + 1) * m2], v, bv, 'ComposedFunction.grid_eval differs from geo2(geo1(x))', xs)
+        if gj is not None:
+            ck.cmp('ComposedFunction(scalar geo2).grid_jacobian-vs-ref' if not t2 else 'composed-grid_jacobian', gj[k * m2 * sdim:(k + 1) * m2 * sdim], J, bj,
+                   'ComposedFunction.grid_jacobian differs from the chain rule J2(geo1(x)) J1(x)', xs)
+    for x, c in zip(op.get('pts', []), r.get('call', [])):
+        xs = [fr(h) for h in x]
+        v, _, bv, _ = exact(xs)
+        if 'err' in c:
+            ck.fail('composed-call-raises-' + c['err'], 'ComposedFunction.__call__ raised %s' % c.get('msg'))
+        else:
+            ck.cmp('composed-call', [fr(h) for h in c['ok']['v']], v, bv, 'ComposedFunction.__call__ differs from geo2(geo1(x))', xs)
+    if op.get('bd') and 'bd' in r:
+        ax, side = parse_expected(op['bd'], sdim)
+        b = [fr(h) for h in ck.case['brk'][ax]]
+        fixed = b[0] if side == 0 else b[-1]
+        if r.get('bd_cls') != 'ComposedFunction':
+            ck.fail('composed-boundary-class', 'boundary of a ComposedFunction is a %s' % r.get('bd_cls'))
+        be = r['bd'].get('grid_eval', {})
+        Gb = [len(a) for a in op['bdgrid']]
+        bev = ck.route(be, 'ComposedFunction.boundary.grid_eval', Gb + t2)
+        for k, xs in enumerate(grid_points(op['bdgrid'])):
+            us = list(reversed(xs))
+            us.insert(ax, fixed)
+            v, _, bv, _ = exact(list(reversed(us)))
+            if bev is not None:
+                ck.cmp('composed-boundary', bev[k * m2:(k + 1) * m2], v, bv, 'boundary(%s) of a ComposedFunction is not its trace' % op['bd'], xs)
+
+
+# ---------------------------------------------------------------------------
+# user-defined functions (polynomial callables, exact oracle)
+
+USERF = {
+    'poly2': (2, lambda x, y: [x * y + 2, x - y * y], lambda x, y: [[y, x], [1, -2 * y]]),
+    'xonly': (2, lambda x, y: [x * x - Fraction(1, 2)], None),
+    'poly3': (3, lambda x, y, z: [x + 2 * y * z, y - x * z, z * z + x], None),
+}
+
+
+def gen_users(ctx):
+    rng = ctx.rng
+    cs = []
+    for name, (d, fn, jac) in USERF.items():
+        supp = []
+        for _ in range(d):
+            a = Fraction(rng.randint(-4, 4), 2)
+            supp.append([hx(a), hx(a + Fraction(rng.randint(1, 6), 2))])
+        # support is given per source dimension in the order of the grid axes (zyx), like BSplineFunc.support
+        grid = []
+        for k in range(d):
+            a, b = fr(supp[k][0]), fr(supp[k][1])
+            grid.append([hx(a), hx(a + (b - a) * Fraction(rng.randint(1, 15), 16)), hx(b)][:rng.choice([2, 3])])
+        pts = [[hx(fr(supp[d - 1 - j][0]) + (fr(supp[d - 1 - j][1]) - fr(supp[d - 1 - j][0])) * Fraction(rng.randint(0, 8), 8)) for j in range(d)]
+               for _ in range(3)]
+        bd = rng.choice(BDNAMES[:2 * d])
+        ax = d - 1 - BDNAMES.index(bd) // 2
+        bdpts = []
+        for x in pts[:2]:
+            y = list(x)
+            del y[d - 1 - ax]
+            bdpts.append(y)
+        cs.append({'user': name, 'support': supp, 'grid': grid, 'pts': pts, 'bd': bd,
+                   'bdgrid': [a for k, a in enumerate(grid) if k != ax], 'bdpts': bdpts})
+    return cs
+
+
+def check_user(c, r):
+    bad = []
+    d, fn, jac = USERF[c['user']]
+    name = c['user']
+    if r['status'] != 'Ok':
+        return [('user-%s-raises-%s' % (name, r['status']), 'UserFunction raised %s: %s' % (r['status'], r.get('msg')))]
+    m = len(fn(*([Fraction(0)] * d)))
+    tail = [] if m == 1 else [m]
+    if r['sdim'] != d or r['output_shape'] != tail:
+        bad.append(('user-%s-shape' % name, 'UserFunction reports sdim %r output_shape %r' % (r['sdim'], r['output_shape'])))
+
+    def tol(xs):
+        return 256 * EPS * (1 + max(abs(x) for x in xs)) ** 3
+
+    def cmp(code, guarded_r, shape, pts_list, f, what):
+        if guarded_r is None:
+            return
+        if 'err' in guarded_r:
+            bad.append(('user-%s-%s-raises-%s' % (name, code, guarded_r['err']), '%s raised %s' % (what, guarded_r.get('msg'))))
+            return
+        if list(guarded_r['ok']['shape']) != list(shape):
+            bad.append(('user-%s-%s-shape' % (name, code), '%s has shape %s, expected %s' % (what, guarded_r['ok']['shape'], list(shape))))
+            return
+        v = [fr(h) for h in guarded_r['ok']['v']]
+        size = len(v) // max(len(pts_list), 1)
+        for k, xs in enumerate(pts_list):
+            ex = f(xs)
+            if any(abs(a - b) > tol(xs) for a, b in zip(v[k * size:(k + 1) * size], ex)):
+                bad.append(('user-%s-%s' % (name, code), '%s differs from the callable at %r' % (what, [float(x) for x in xs])))
+                return
+    gp = grid_points(c['grid'])
+    G = [len(a) for a in c['grid']]
+    val = lambda xs: fn(*xs)
+    cmp('grid_eval', r['grid_eval'], G + tail, gp, val, 'UserFunction.grid_eval')
+    if jac is not None:
+        cmp('grid_jacobian', r['grid_jac'], G + [m, d], gp, lambda xs: [x for row in jac(*xs) for x in row], 'UserFunction.grid_jacobian')
+    sp = [[fr(h) for h in x] for x in c['pts']]
+    for xs, cr in zip(sp, r['call']):
+        cmp('call', cr, tail, [xs], val, 'UserFunction.__call__')
+    if 'ok' in r['pw_eval']:
+        # a tuple-valued callable returns a tuple of arrays: component-major
+        v = [fr(h) for h in r['pw_eval']['ok']['v']]
+        n = len(sp)
+        for k, xs in enumerate(sp):
+            ex = val(xs)
+            got = [v[cidx * n + k] for cidx in range(m)] if len(v) == m * n else None
+            if got is None or any(abs(a - b) > tol(xs) for a, b in zip(got, ex)):
+                bad.append(('user-%s-pointwise_eval' % name, 'UserFunction.pointwise_eval differs from the callable at %r' % ([float(x) for x in xs],)))
+                break
+    else:
+        bad.append(('user-%s-pointwise_eval-raises' % name, 'UserFunction.pointwise_eval raised %s' % r['pw_eval'].get('msg')))
+    # boundary restriction
+    ax, side = parse_expected(c['bd'], d)
+    fixed = fr(c['support'][ax][side])
+    if r['bd_cls'] != '_BoundaryFunction' or r['bd_sdim'] != d - 1:
+        bad.append(('user-%s-boundary-type' % name, 'boundary() is a %s with sdim %r' % (r['bd_cls'], r['bd_sdim'])))
+    exp_supp = [s for k, s in enumerate(c['support']) if k != ax]
+    if r['bd_support'] != exp_supp:
+        bad.append(('user-%s-boundary-support' % name, 'boundary support %r, expected %r' % (r['bd_support'], exp_supp)))
+
+    def full(xs):
+        us = list(reversed(xs))
+        us.insert(ax, fixed)
+        return list(reversed(us))
+    bgp = grid_points(c['bdgrid'])
+    cmp('boundary-grid_eval', r['bd_grid_eval'], [len(a) for a in c['bdgrid']] + tail, bgp, lambda xs: val(full(xs)), '_BoundaryFunction(UserFunction).grid_eval')
+    for x, cr in zip(c['bdpts'], r['bd_call']):
+        xs = [fr(h) for h in x]
+        cmp('boundary-call', cr, tail, [xs], lambda xs_: val(full(xs_)), '_BoundaryFunction(UserFunction).__call__')
+    if jac is not None:
+        col = d - 1 - ax
+        cmp('boundary-jacobian', r['bd_grid_jac'], [len(a) for a in c['bdgrid']] + [m, d - 1], bgp,
+            lambda xs: [x for row in jac(*full(xs)) for a, x in enumerate(row) if a != col], '_BoundaryFunction(UserFunction).grid_jacobian')
+    return bad
+
+
+# ---------------------------------------------------------------------------
+# constructors
+
+def gen_ctors(ctx):
+    rng = ctx.rng
+    thorough = ctx.tier == 'thorough'
+    T = [hx(Fraction(k, 16)) for k in range(17)]
+    cs = []
+    n = 6 if thorough else 2
+    for _ in range(n):
+        r = hx(Fraction(rng.randint(1, 40), 8))
+        cs.append({'ctor': 'circular_arc_3pt', 'args': {'alpha': hx(rng.uniform(0.05, 0.9 * math.pi)), 'r': r}, 'grid': [T]})
+        cs.append({'ctor': 'circular_arc_5pt', 'args': {'alpha': hx(rng.uniform(0.05, 1.8 * math.pi)), 'r': r}, 'grid': [T]})
+        cs.append({'ctor': 'circular_arc_7pt', 'args': {'alpha': hx(rng.uniform(0.05, 2 * math.pi)), 'r': r}, 'grid': [T]})
+        cs.append({'ctor': 'circular_arc', 'args': {'alpha': hx(rng.choice([rng.uniform(0.05, 3.1), math.pi, rng.uniform(3.2, 6.2), 2 * math.pi])), 'r': r}, 'grid': [T]})
+        cs.append({'ctor': 'semicircle', 'args': {'r': r}, 'grid': [T]})
+        cs.append({'ctor': 'circle', 'args': {'r': r}, 'grid': [T]})
+        r1 = Fraction(rng.randint(1, 16), 8)
+        T5 = T[::4]
+        bdg = {s: [T] for s in ('left', 'right', 'bottom', 'top')}
+        cs.append({'ctor': 'quarter_annulus', 'args': {'r1': hx(r1), 'r2': hx(r1 + Fraction(rng.randint(1, 16), 8))}, 'grid': [T, T5],
+                   'bd': ['left', 'right', 'bottom', 'top'], 'bdgrid': bdg})
+        cs.append({'ctor': 'disk', 'args': {'r': r}, 'grid': [T5, T5], 'bd': ['left', 'right', 'bottom', 'top'], 'bdgrid': bdg})
+        d = rng.randint(1, 3)
+        x0 = [hx(Fraction(rng.randint(-16, 16), 4)) for _ in range(d)]
+        x1 = [hx(Fraction(rng.randint(-16, 16), 4)) for _ in range(d)]
+        s0 = Fraction(rng.randint(-4, 4), 2)
+        s1 = s0 + Fraction(rng.randint(1, 6), 2)
+        cs.append({'ctor': 'line_segment', 'args': {'x0': x0, 'x1': x1, 'support': [hx(s0), hx(s1)], 'intervals': rng.randint(1, 4)},
+                   'grid': [[hx(s0 + (s1 - s0) * Fraction(k, 8)) for k in range(9)]]})
+        dd = rng.randint(1, 3)
+        ext = []
+        for _ in range(dd):
+            a = Fraction(rng.randint(-8, 8), 4)
+            ext.append([hx(a), hx(a + Fraction(rng.randint(1, 8), 4))])
+        cs.append({'ctor': 'identity', 'args': {'extents': ext},
+                   'grid': [[e[0], hx((fr(e[0]) + 3 * fr(e[1])) / 4), e[1]] for e in ext]})
+        cs.append({'ctor': 'unit_cube', 'args': {'dim': rng.randint(1, 3), 'num_intervals': rng.randint(1, 3)}})
+    for c in cs:
+        if c['ctor'] == 'unit_cube':
+            c['grid'] = [[hx(0), hx(Fraction(3, 8)), hx(1)]] * c['args']['dim']
+    cs.append({'ctor': 'twisted_box', 'grid': [[hx(Fraction(1, 4)), hx(1)], [hx(0), hx(Fraction(5, 8))], [hx(Fraction(1, 2))]]})
+    return cs
+
+
+def check_ctor(c, r):
+    """returns list of (code, text)"""
+    bad = []
+    name = c['ctor']
+    a = c.get('args', {})
+    if r['status'] != 'Ok':
+        return [('ctor-%s-raises-%s' % (name, r['status']), '%s raised %s: %s' % (name, r['status'], r.get('msg')))]
+    rf = res_func(r)
+    if rf is None:
+        return [('ctor-%s-shape' % name, 'coefficient shape does not match the knot vectors')]
+    pts = grid_points(c['grid'])
+    ex = [res_value(rf, r['cls'], xs) for xs in pts]          # the represented map, exactly
+    # the implementation's own evaluation of the object against the map its coefficients define
+    ge = r.get('grid_eval', {})
+    if 'ok' in ge:
+        m = len(ex[0])
+        iv = [fr(h) for h in ge['ok']['v']]
+        cm = max(abs(x) for x in rf.flat) + 1
+        wmin = min(rf.flat[i * rf.m + rf.m - 1] for i in range(len(rf.flat) // rf.m)) if r['cls'] == 'NurbsFunc' else Fraction(1)
+        tol = 4096 * EPS * cm * cm / (wmin * wmin)
+        for k, e in enumerate(ex):
+            if any(abs(x - y) > tol for x, y in zip(iv[k * m:(k + 1) * m], e)):
+                bad.append(('ctor-%s-eval' % name, 'grid_eval of the constructed object differs from the map its coefficients define at %r' % ([float(x) for x in pts[k]],)))
+                break
+    else:
+        bad.append(('ctor-%s-eval-raises' % name, 'grid_eval raised %s' % ge.get('err')))
+
+    def on_circle(points, rad, what, wmin=Fraction(1, 4)):
+        tol = 64 * EPS / (wmin * wmin)
+        for p in points:
+            rr = p[0] * p[0] + p[1] * p[1]
+            if abs(rr - rad * rad) > 2 * tol * rad * rad:
+                bad.append(('ctor-%s-radius' % name, '%s: point %r has radius %r, requested %r' % (what, [float(x) for x in p], math.sqrt(float(rr)), float(rad))))
+                return False
+        return True
+    if name in ('circular_arc', 'circular_arc_3pt', 'circular_arc_5pt', 'circular_arc_7pt', 'semicircle', 'circle'):
+        rad = fr(a['r'])
+        alpha = float.fromhex(a['alpha']) if 'alpha' in a else (math.pi if name == 'semicircle' else 2 * math.pi)
+        if r['cls'] != 'NurbsFunc' or r['sdim'] != 1 or r['dim'] != 2:
+            bad.append(('ctor-%s-type' % name, 'not a NURBS curve in the plane'))
+        W = [rf.flat[i * 3 + 2] for i in range(len(rf.flat) // 3)]
+        # the documented control net: n points r (cos a_k, sin a_k), a_k = k alpha/(n-1), weights 1, cos(alpha/(n-1)), 1, ...
+        n = {'circular_arc_3pt': 3, 'circular_arc_5pt': 5, 'circular_arc_7pt': 7, 'semicircle': 5, 'circle': 7}.get(
+            name, 3 if alpha < math.pi else 7)
+        knots = {3: [0, 0, 0, 1, 1, 1], 5: [0, 0, 0, 0.5, 0.5, 1, 1, 1], 7: [0, 0, 0, 1 / 3, 1 / 3, 2 / 3, 2 / 3, 1, 1, 1]}[n]
+        got_kv = [float.fromhex(h) for h in r['kvs'][0]['kv']]
+        if r['kvs'][0]['p'] != 2 or len(got_kv) != len(knots) or any(abs(a - b) > 4e-16 for a, b in zip(got_kv, knots)):
+            bad.append(('ctor-%s-knots' % name, 'knot vector %r, documented %r' % (got_kv, knots)))
+            return bad
+        wexp = math.cos(alpha / (n - 1))
+        for k in range(n):
+            a_k = k * alpha / (n - 1)
+            exp = [float(rad) * math.cos(a_k), float(rad) * math.sin(a_k), 1.0 if k % 2 == 0 else wexp]
+            gotk = [float(rf.flat[k * 3 + c]) for c in range(3)]
+            if any(abs(x - y) > 16 * float(EPS) * (1 + float(rad)) * (1 + alpha) for x, y in zip(gotk, exp)):
+                bad.append(('ctor-%s-control-net' % name, 'control point/weight %d is %r, documented %r' % (k, gotk, exp)))
+                return bad
+        if min(W) <= 0:
+            bad.append(('ctor-%s-weights' % name, 'non-positive weight %r' % float(min(W))))
+            return bad
+        on_circle(ex, rad, 'arc', min(min(W), Fraction(1)))
+        tolp = 64 * float(EPS) * float(rad) / float(min(min(W), 1)) ** 2
+        p0, p1 = ex[0], ex[-1]
+        if abs(float(p0[0]) - float(rad)) > tolp or abs(float(p0[1])) > tolp:
+            bad.append(('ctor-%s-start' % name, 'arc does not start at (r, 0): %r' % ([float(x) for x in p0],)))
+        if abs(float(p1[0]) - float(rad) * math.cos(alpha)) > tolp or abs(float(p1[1]) - float(rad) * math.sin(alpha)) > tolp:
+            bad.append(('ctor-%s-end' % name, 'arc does not end at angle alpha=%r: %r' % (alpha, [float(x) for x in p1])))
+        # counterclockwise, total angle alpha
+        tot = 0.0
+        for p, qq in zip(ex, ex[1:]):
+            dth = math.atan2(float(p[0] * qq[1] - p[1] * qq[0]), float(p[0] * qq[0] + p[1] * qq[1]))
+            if dth <= 0:
+                bad.append(('ctor-%s-direction' % name, 'arc does not travel counterclockwise'))
+                break
+            tot += dth
+        else:
+            if abs(tot - alpha) > 1e-12 * (1 + alpha) / float(min(min(W), 1)) ** 2:
+                bad.append(('ctor-%s-angle' % name, 'arc covers angle %r, requested %r' % (tot, alpha)))
+    elif name == 'quarter_annulus':
+        r1, r2 = fr(a['r1']), fr(a['r2'])
+        for xs, p in zip(pts, ex):
+            rho = r1 + xs[0] * (r2 - r1)
+            if not on_circle([p], rho, 'quarter annulus at x=%r' % float(xs[0])):
+                break
+            if p[0] < -64 * EPS * r2 or p[1] < -64 * EPS * r2:
+                bad.append(('ctor-quarter_annulus-quadrant', 'point outside the first quadrant'))
+                break
+    if name in ('quarter_annulus', 'disk') and 'bd' in r:
+        for spec, rb in r['bd'].items():
+            bf = res_func(rb)
+            bp = [res_value(bf, rb['cls'], xs) for xs in grid_points(c['bdgrid'][spec])]
+            if name == 'disk':
+                on_circle(bp, fr(a['r']), 'disk boundary %s' % spec)
+            elif spec in ('left', 'right'):
+                on_circle(bp, fr(a['r1']) if spec == 'left' else fr(a['r2']), 'annulus boundary %s' % spec)
+            else:
+                k = 1 if spec == 'bottom' else 0        # bottom lies on the x axis, top on the y axis
+                if any(abs(p[k]) > 64 * EPS * fr(a['r2']) for p in bp):
+                    bad.append(('ctor-quarter_annulus-%s' % spec, 'boundary %s does not lie on the documented coordinate axis' % spec))
+    if name == 'disk':
+        rad = fr(a['r'])
+        if any(p[0] * p[0] + p[1] * p[1] > rad * rad * (1 + 4096 * EPS) for p in ex):
+            bad.append(('ctor-disk-inside', 'disk maps a parameter point outside the circle'))
+    if name == 'line_segment':
+        x0, x1 = [fr(h) for h in a['x0']], [fr(h) for h in a['x1']]
+        s0, s1 = [fr(h) for h in a['support']]
+        mag = max(abs(x) for x in x0 + x1) + 1
+        if [fr(h) for h in r['support'][0]] != [s0, s1]:
+            bad.append(('ctor-line_segment-support', 'support is %r' % (r['support'],)))
+        if len(r['kvs'][0]['kv']) != a['intervals'] + 3:
+            bad.append(('ctor-line_segment-intervals', 'wrong number of intervals'))
+        for xs, p in zip(pts, ex):
+            t = (xs[0] - s0) / (s1 - s0)
+            if any(abs(v - (u0 + (u1 - u0) * t)) > 32 * EPS * mag for v, u0, u1 in zip(p, x0, x1)):
+                bad.append(('ctor-line_segment-map', 'line_segment is not the affine map between x0 and x1 at t=%r' % float(xs[0])))
+                break
+    if name in ('identity', 'unit_cube', 'unit_square'):
+        for xs, p in zip(pts, ex):
+            if any(abs(u - v) > 32 * EPS * (1 + abs(u)) for u, v in zip(xs, p)) or len(xs) != len(p):
+                bad.append(('ctor-%s-map' % name, '%s maps %r to %r (documented: the identity, xyz order)' % (name, [float(x) for x in xs], [float(x) for x in p])))
+                break
+        if name == 'unit_cube' and any(len(k['kv']) != a['num_intervals'] + 3 for k in r['kvs']):
+            bad.append(('ctor-unit_cube-intervals', 'wrong number of intervals'))
+    return bad
+
+
+# ---------------------------------------------------------------------------
+
+def classify(code, ck):
+    """signature of a finding: the evaluation routes share three call sites in bspline.py; findings
+    that come from the same site and input class get one signature"""
+    tc = tailclass(ck.tail)
+    codes = {b[0] for b in ck.bad}
+    pw = code.startswith(('pointwise_eval', 'pointwise_jacobian', 'routes-'))
+    if pw and ck.sdim != 2 and any(c.startswith(('pointwise_eval', 'routes-call')) for c in codes):
+        return 'pointwise-axis-order:sdim%d' % ck.sdim           # tp_bsp_*_pointwise: XY[1-d]
+    if code.startswith(('pointwise_jacobian', 'routes-jac')) and ck.kind == 'bsp' and tc in ('scalar', 'matrix'):
+        return 'pointwise-jacobian-slot:%s' % tc                 # tp_bsp_jac_pointwise: result[k, :, slot]
+    if code.startswith('grid_hessian-raises') and ck.kind == 'bsp' and ck.tail == [1]:
+        return 'hessian-dim1-vector'                             # grid_hessian of a (..., 1) coefficient array
+    if code.startswith('ComposedFunction(scalar geo2)'):
+        return 'composed-jacobian-scalar-geo2'                   # ComposedFunction.grid_jacobian: matmul of a gradient array
+    return '%s:%s:sdim%d:%s' % (code, ck.kind, ck.sdim, tc)
+
+
+def run(ctx):
+    ctx.obligations_stage(PROPS, extra_targets=['C07/Examples.vo', 'C07/Check.vo'], gate_dirs=['C02'])
+    ctx.assumptions += [
+        'model: hand transcription of BSplineFunc/NurbsFunc evaluation routes, boundary extraction and the coefficient-level '
+        'operations of bspline.py/geometry.py into Gallina over Qc (coq/C07/Model.v) on top of the kernels of coq/lib/Bsp.v',
+        'apply_tprod / np.einsum are modelled by their documented contract sum_J prod_k A_k[i_k,j_k] X[J] (tp_eval), not by their loops',
+        'scattered-point evaluators modelled with the REPAIRED indexing XY[sdim-1-d] and Jacobian slot [..., sdim-i-1] '
+        '(fixes/C07-pointwise-axis-order.patch, fixes/C07-pointwise-jacobian-slot.patch); the indexing as written is refuted in Props.v',
+        'UserFunction, ComposedFunction, _BoundaryFunction of callables, support restriction, cylinderize and the constructors are not in the Coq model: '
+        'they are checked on the implementation against the exact Fraction oracle only (chain rule J2(g(x)) J1(x) with a Lipschitz bound for the inner rounding)',
+        'float tie: forward rounding bound per point from the per-entry bound of the C02 tie and interval evaluation of the NURBS '
+        'quotient-rule expressions (module docstring); integers/shapes/knot vectors/classes exactly',
+        'immutability is monitored on the implementation (snapshot of kvs/coeffs/support around every call), it is not a theorem',
+        'not covered: find_inverse (scipy optimiser), perturb (random), np.cos/np.sin rounding in constructors beyond the stated bounds',
+    ]
+    cases, dist = gen_cases(ctx)
+    ctors = gen_ctors(ctx)
+    log('[C07] %d function cases, %d constructor cases' % (len(cases), len(ctors)))
+    users = gen_users(ctx)
+    # one interpreter start per 60 function cases (the quick tier is a single driver run)
+    results = []
+    B = 60
+    allc = cases + ctors + users
+    allr = []
+    for i in range(0, len(allc), B):
+        allr += ctx.impl.run('harness/impl/c07_driver.py', {'cases': allc[i:i + B]})['results']
+    results = allr[:len(cases)]
+    cres = allr[len(cases):len(cases) + len(ctors)]
+    ures = allr[len(cases) + len(ctors):]
+    log('[C07] implementation runs done at %.1fs' % (time.time() - ctx.t0))
+    nfail = 0
+    npts = 0
+    checkers = []
+    for ci, (c, r) in enumerate(zip(cases, results)):
+        f = c['f']
+        key = '%s:sdim%d:%s' % (f['kind'], len(f['kvs']), tailclass(f['tail']))
+        if r['status'] != 'Ok':
+            ctx.report('impl:raises-%s:%s' % (r['status'], key), 'constructing/evaluating a valid function raised %s: %s' % (r['status'], r.get('msg')),
+                       {'case': c})
+            checkers.append(None)
+            nfail += 1
+            continue
+        ck = Checker(c, r)
+        ck.run_eval()
+        run_ops(ck)
+        checkers.append(ck)
+        for P in ck.points:
+            ctx.count((ci, tuple(P['xs'])), nontrivial=True)
+            npts += 1
+        ctx.count(('ops', ci), nontrivial=True, n=len(c.get('ops', [])))
+        seen = set()
+        for (code, text, detail) in ck.bad:
+            cls_ = classify(code, ck)
+            if cls_ in seen:
+                continue
+            seen.add(cls_)
+            nfail += 1
+            ctx.report('impl:%s' % cls_, text,
+                       {'function': {k: v for k, v in f.items()}, 'kvs': [[float.fromhex(h) for h in k['kv']] for k in f['kvs']],
+                        'degrees': [k['p'] for k in f['kvs']], 'detail': detail, 'grid': [[float.fromhex(h) for h in ax] for ax in c['grid']],
+                        'points_xyz': [[float.fromhex(h) for h in x] for x in c['pts']],
+                        'how': 'build BSplineFunc/NurbsFunc(kvs, C.reshape(N+tail)[, W]) from the hex floats; compare f(*x), f.grid_eval, '
+                               'f.pointwise_eval/jacobian, f.grid_jacobian/hessian, operations'})
+    for c, r in zip(users, ures):
+        ctx.count(('user', c['user'], str(c['support'])), nontrivial=True)
+        for (code, text) in check_user(c, r)[:2]:
+            nfail += 1
+            ctx.report('impl:%s' % code, text, {'user': c['user'], 'callable': {'poly2': '(x*y+2, x-y*y)', 'xonly': 'x*x-0.5', 'poly3': '(x+2yz, y-xz, z*z+x)'}[c['user']],
+                                                'support': [[float.fromhex(h) for h in s_] for s_ in c['support']], 'bd': c['bd'],
+                                                'grid': [[float.fromhex(h) for h in a] for a in c['grid']]})
+    for c, r in zip(ctors, cres):
+        ctx.count(('ctor', c['ctor'], str(c.get('args'))), nontrivial=True)
+        for (code, text) in check_ctor(c, r)[:2]:
+            nfail += 1
+            ctx.report('impl:%s' % code, text, {'ctor': c['ctor'], 'args': {k: (float.fromhex(v) if isinstance(v, str) else v) for k, v in c.get('args', {}).items()},
+                                                'args_hex': c.get('args')})
+    log('[C07] oracle checks done at %.1fs' % (time.time() - ctx.t0))
+    ctx.cov['traces_validated_against_impl'] = npts
+    ctx.cov['property_failures_on_impl'] = nfail
+    # ---- correspondence with the exact Coq model
+    files = []
+    index = []
+    PER = 2
+    cur, curidx = [], []
+    for ci, (c, ck) in enumerate(zip(cases, checkers)):
+        if ck is None:
+            continue
+        F, m = coq_func(c['f'])
+        pts = ck.points
+        if ctx.tier != 'thorough':
+            gp = [P for P in pts if P['grid']]
+            sp = [P for P in pts if not P['grid']]
+            # quick tier: the exact Coq comparison on 2-3 points per function (every route at each);
+            # all points are still checked against the Fraction oracle above
+            pts = (gp[:1] + gp[-1:] + sp[:1]) if len(c['f']['kvs']) < 3 else (gp[-1:] + sp[:1])
+        impl_coeffs = cql([fr(h) for h in results[ci]['eval']['coeffs']['v']])
+        terms = ['check_fn %s F %d%%nat %s' % ('true' if c['f']['kind'] == 'nurbs' else 'false', m, clist([coq_pt(P) for P in pts])),
+                 'check_arr %s F %s' % (cqc(16 * EPS * (fmax(c['f']['C']) * (fmax(c['f'].get('W', [])))) ), impl_coeffs)] + ck.coq_ops
+        cur.append('(let F := %s in\n  %s)' % (F, '\n  && '.join(terms)))
+        curidx.append(ci)
+        if len(cur) == PER:
+            files.append(cur); index.append(curidx); cur, curidx = [], []
+    if cur:
+        files.append(cur); index.append(curidx)
+    texts = []
+    for n, cs in enumerate(files):
+        body = HEADER + 'Definition results := [\n' + ';\n'.join(cs) + '].\nEval vm_compute in bad_cases 0 results.\n'
+        texts.append(('C07_cases_%03d' % n, body))
+    # self-test of the differ: a copy of the first case file in which one coefficient of the MODEL is
+    # perturbed (+3) must be reported as a disagreement of its first case
+    selftest = None
+    if texts:
+        import re as _re
+        t0 = texts[0][1]
+        mm = _re.search(r'\(arr \[[^\]]*\] \d+%nat \[\(q \((-?\d+)\) (\d+)\)', t0)
+        if mm:
+            n0, d0 = int(mm.group(1)), int(mm.group(2))
+            repl = mm.group(0)[:mm.start(1) - mm.start(0)] + str(n0 + 3 * d0) + mm.group(0)[mm.end(1) - mm.start(0):]
+            selftest = ('C07_selftest', t0[:mm.start(0)] + repl + t0[mm.end(0):])
+            texts.append(selftest)
+            index.append(None)
+    dis = []
+    for (name, ok, out), idx in zip(ctx.coq_eval_many(texts, timeout=1500), index):
+        ctx.obligations += 1
+        badidx = parse_coq_list_of_nat(out) if ok else None
+        if idx is None:
+            if badidx is None or 0 not in badidx:
+                ctx.broken.append('differ self-test: a perturbed model coefficient was not reported (%s)' % (out[-300:],))
+            else:
+                ctx.discharged += 1
+            ctx.cov['differ_selftest'] = 'perturbed model reported' if badidx and 0 in badidx else 'NOT reported'
+            continue
+        if badidx is None:
+            ctx.broken.append('case file %s did not evaluate: %s' % (name, out[-500:]))
+            continue
+        ctx.discharged += 1
+        dis += [idx[b] for b in badidx]
+    log('[C07] Coq case files done at %.1fs' % (time.time() - ctx.t0))
+    ctx.cov['disagreements_checked'] = len(dis)
+    for ci in dis[:4]:
+        c = cases[ci]
+        f = c['f']
+        key = '%s:sdim%d:%s' % (f['kind'], len(f['kvs']), tailclass(f['tail']))
+        ctx.broken.append('correspondence C07 model<->impl differs for function case #%d (%s)' % (ci, key))
+        ctx.report('tie:exact-model:%s' % (classify(checkers[ci].bad[0][0], checkers[ci]) if checkers[ci].bad else key),
+                   'implementation differs from the exact Coq model beyond the rounding bound (evaluation route, boundary or operation coefficients)',
+                   {'function': f, 'kvs': [[float.fromhex(h) for h in k['kv']] for k in f['kvs']], 'grid': c['grid'], 'pts': c['pts'],
+                    'ops': [{k: v for k, v in op.items() if k not in ('other',)} for op in c.get('ops', [])],
+                    'python_oracle_findings': [b[0] for b in checkers[ci].bad],
+                    'how': 'coq/gen/C07_cases_*.v: check_fn / check_arr of coq/C07/Check.v on this case'},
+                   found_input=bool(checkers[ci].bad))
+    ctx.cov['rule'] = ('random tensor-product B-spline/NURBS functions (sdim 1..3, degrees 1..3(4), 1..3 spans on a dyadic grid, interior '
+                       'multiplicities 1..p, scalar/vector/matrix coefficients k/8, weights in [1/2,3]) x points (tensor grid + scattered, incl. knots '
+                       'and end points) x routes (__call__, grid_eval, pointwise_eval, grid/pointwise Jacobian, Hessian) x operations (boundary by '
+                       'name/pair, _BoundaryFunction, translate, scale, matrix, rotate, getitem, copy, as_nurbs, support restriction, cylinderize, '
+                       'outer_sum/product, tensor_product) + constructors; one evaluation = one (function, point) or one operation')
+    ctx.cov['input_distribution'] = dist
+    if cases:
+        c = cases[0]
+        ctx.sample({'kind': c['f']['kind'], 'degrees': [k['p'] for k in c['f']['kvs']], 'kvs': [[float.fromhex(h) for h in k['kv']] for k in c['f']['kvs']],
+                    'tail': c['f']['tail'], 'points_xyz': [[float.fromhex(h) for h in x] for x in c['pts']],
+                    'impl_call': [r_.get('ok', {}).get('v') for r_ in results[0].get('eval', {}).get('call', [])][:2]})
+    return ctx.finish(extra={'partial': [
+        'boundary_is_trace: the end-point interpolation of the B-spline basis (Hend) is an explicit hypothesis (not yet a C02 theorem); met on examples',
+        'disk_boundary_on_circle: not proved (tie only); arcs/annulus proved over an arbitrary field with c^2+s^2=1',
+        'composed_chain_rule, UserFunction/_BoundaryFunction of callables, support restriction, cylinderize, copy: checked on the implementation against the exact oracle only',
+        'immutability: monitored by snapshots around every call on the implementation, not a theorem',
+        'float rounding of the compiled kernels / numpy only bounded by the tie']})
+
+
+META = {
+    'technique': 'Rocq proofs over exact rationals / an abstract field (route agreement by induction over the axes, quotient and Leibniz '
+                 'identities by field, circle identities by ring) + correspondence of bspline.py/geometry.py with the exact model within derived rounding bounds',
+    'level_text': 'see coq/C07/Props.v; tie: every evaluation route, boundary extraction and coefficient operation of generated spline/NURBS '
+                  'functions against the exact Qc model (coq/C07/Model.v) and against an independent Fraction oracle',
+    'level_note': 'Trusted: Coq kernel + vm_compute; transcription (coq/C07/Model.v, coq/lib/Bsp.v) validated on every run; apply_tprod/einsum by contract; '
+                  'float rounding bounded by the tie only (partial).',
+}
